@@ -214,8 +214,22 @@ def run(ctx, res):
                     r = g.root_of(rop, through_named=True)
                     maker = M.callee_name(r[2]) if r[0] == "call" else None
                     key = "%s # TextEdit.range" % p
+                    through_chain = False
+                    if maker is None and r[0] == "place" and "{closure" in p and 1 <= r[1]["l"] <= g.argc:
+                        # the range arrives as (part of) a closure parameter: an iterator chain built it in an earlier
+                        # stage. Accept when a sibling stage (or the parent) builds ranges with a text-taking converter
+                        # and nothing in the group builds one any other way.
+                        base_ = p.split("::{closure")[0]
+                        group = [h_ for q_, h_ in fns.items() if q_ == base_ or q_.startswith(base_ + "::{closure")]
+                        made = any(M.callee_name(t_) in RANGE_MAKERS for h_ in group for _, t_ in h_.calls())
+                        other = any((M.callee_name(t_) or "") == "lsp::garden_pos_to_lsp_range_no_src" for h_ in group for _, t_ in h_.calls()) or any(
+                            st_.get("s") == "assign" and st_["rv"]["k"] == "agg" and st_["rv"].get("adt") == "gen_lsp_types::Range"
+                            for h_ in group for b_ in h_.blocks for st_ in b_["stmts"])
+                        through_chain = made and not other
                     if maker in RANGE_MAKERS:
                         res.ok("EDIT-RANGE", key + " = %s(..)" % maker.split("::")[-1])
+                    elif through_chain:
+                        res.ok("EDIT-RANGE", key + ": handed down an iterator chain whose only range source is a text-taking converter")
                     else:
                         res.bad("EDIT-RANGE", key + " # " + (maker or r[0]), "the range of a TextEdit built in %s does not come from whole_document_range / "
                                 "garden_pos_to_lsp_range (found %s): it is not computed from the document text in UTF-16 columns" % (p, maker or r[0]), st["span"])
